@@ -247,6 +247,20 @@ def run(ctx):
             flags = [(bool(rng.integers(0, 2)), bool(rng.integers(0, 2))) for _ in range(n)]
         path = fixtures.generic_path(rng, n, random_frames=True, flags=flags, two_d=bool(rng.integers(0, 2)), sizes=[int(rng.integers(1, 4)) for _ in range(n)])
         jobs.append((path, False))
+    # paths traced, then changed in place (an interface moved: same Points objects, new coordinates), then traced again:
+    # every clause is about the path as it is now
+    for k in range(8 * ctx.scale):
+        n = int(rng.integers(3, 6))
+        path = fixtures.generic_path(rng, n, random_frames=True, flags=None, two_d=False, sizes=[int(rng.integers(2, 4)) for _ in range(n)])
+        m_ = int(rng.integers(0, n))
+        path.interfaces[m_].points.coords[...] += rng.normal(size=3) * 6e-3
+        if k % 2:
+            ray.ray_tracing_for_paths([path])
+        else:
+            import arim
+            ray.ray_tracing([arim.View(path, path, "v")])
+        jobs.append((path, False))
+        ctx.count("retraced_after_moving_an_interface")
     for p in boundary_paths(rng):
         jobs.append((p, True))
     for p in normal_incidence_paths(rng, 12 * ctx.scale):
